@@ -351,7 +351,9 @@ BgEvents == {"RF_ERROR", "RETRY_EXCEEDED", "CONN_RETRY_EXCEEDED", "PACK_REFRESHE
 StepBg(t) ==
   /\ t \in { <<"BG", e>> : e \in Eps } /\ Head(todo[t]).f = "bgIdle" /\ nBg < MaxBg
   /\ \E ev \in BgEvents :
-       /\ (ev = "PACK_REFRESHED") => ((net = "ok" \/ Unreliable) /\ spaConn[t[2]])
+       \* (a refresh cycle starts only while the spa is connected, but one that is in flight when a reset begins
+       \*  still reports after `_is_connected` was cleared, as long as the protocol exists)
+       /\ (ev = "PACK_REFRESHED") => ((net = "ok" \/ Unreliable) /\ (spaConn[t[2]] \/ spaOpen[t[2]]))
        /\ (ev \in {"RETRY_EXCEEDED", "CONN_RETRY_EXCEEDED"}) => (net = "bad" \/ Unreliable)
        /\ IF ev = "RF_ERROR"
           THEN LET n == IF rfc[t[2]] > MaxRF THEN rfc[t[2]] ELSE rfc[t[2]] + 1 IN
